@@ -4209,3 +4209,349 @@ Proof.
   { unfold P. apply In_set_union. right. apply In_pending_locators. destruct HP2 as [row2 [A2 [B2 C2]]]. exists row2. auto. }
   rewrite <- Hpend2 in HinP. destruct (D7 x HinP) as [Hno _]. exact (Hno HP3).
 Qed.
+
+(* ====================================================================== *)
+(* C05: at every durable state a SIGKILL can leave behind, at least one    *)
+(* ====================================================================== *)
+Definition AtLeast (d : db) (due : list (N * N)) : Prop :=
+  forall t l, In (t, l) due -> Trow d t -> ~ Mrow d t -> recorded d t l.
+Definition DbsOk (due : list (N * N)) (s : fstate) : Prop := forall d, In d (f_dbs s) -> AtLeast d due.
+
+Lemma AtLeast_DurInv d due : DurInv d due -> AtLeast d due.
+Proof. intros [_ [_ E]] t l Hin _ Hm. destruct (E t l Hin) as [_ H]. exact (H Hm). Qed.
+
+Lemma DbsOk_wr due s c : DbsOk due s -> AtLeast (c_db c) due -> DbsOk due (wr_c s c).
+Proof. intros H Hc d Hd. cbn [f_dbs wr_c] in Hd. apply in_app_or in Hd. destruct Hd as [Hd|[<-|[]]]; [apply H, Hd|exact Hc]. Qed.
+Lemma DbsOk_same due s s' : f_dbs s' = f_dbs s -> DbsOk due s -> DbsOk due s'.
+Proof. unfold DbsOk. intros ->. auto. Qed.
+
+Lemma f_dbs_retrier_drop s t l : f_dbs (retrier_drop s t l) = f_dbs s.
+Proof. unfold retrier_drop. destruct (aget (f_mgr s) t); reflexivity. Qed.
+Lemma f_due_retrier_drop s t l : f_due (retrier_drop s t l) = f_due s.
+Proof. unfold retrier_drop. destruct (aget (f_mgr s) t); reflexivity. Qed.
+
+(* a primitive that only adds a receipt / invalid row keeps `at least one` *)
+Lemma AtLeast_grow d d' due :
+  (forall k x, Rrow d k x -> Rrow d' k x) -> (forall k x, Prow d k x -> Prow d' k x) -> (forall k x, Irow d k x -> Irow d' k x) ->
+  (forall k, Mrow d k -> Mrow d' k) -> (forall k, Trow d' k -> Trow d k) ->
+  AtLeast d due -> AtLeast d' due.
+Proof.
+  intros HR HP HI HM HT H t l Hin Ht Hm. assert (Hm0 : ~ Mrow d t) by (intros X; apply Hm, HM, X).
+  destruct (H t l Hin (HT t Ht) Hm0) as [X|[X|X]]; [left; apply HR, X|right; left; apply HP, X|right; right; apply HI, X].
+Qed.
+
+(* one locator of the for loop: the durable states it writes *)
+Lemma run_for_one_dbs t l s adds s1 adds1 res :
+  RunPre s t -> In l (retrier_pending s t) -> run_for s t [l] adds = (s1, adds1, res) ->
+  DbsOk (f_due s) s -> DbsOk (f_due s) s1 /\ f_due s1 = f_due s.
+Proof.
+  intros Hpre Hl E Hok. pose proof Hpre as [HF [Hp [Hk Hrun]]]. pose proof HF as [HI [HD [HV HT]]].
+  assert (Hnd1 : NoDup [l]) by (constructor; [intros []|constructor]).
+  destruct (FInv_run_for t [l] s adds s1 adds1 res Hpre Hnd1) as [A _]; [intros x [<-|[]]; exact Hl|exact E|].
+  cbn [run_for] in E. unfold poisoned in Hp. unfold poisoned in E. rewrite Hp in E.
+  destruct (dbm_load_appointment (c_db (f_c s)) l) as [body|]; [|inversion E; subst; split; [exact Hok|reflexivity]].
+  set (s0 := log_req s (ReqAdd t l)) in *.
+  destruct (next_reply adds) as [rp a1]. destruct rp; try (inversion E; subst; split; [exact Hok|reflexivity]).
+  - rewrite f_c_retrier_drop in E.
+    destruct (wt_add_appointment_receipt (f_c s0) t l slots START_BLOCK USER_SIG SIG_TOWER) as [c2 r2] eqn:E2.
+    destruct (add_receipt_spec_for_move _ _ _ _ _ _ HI Hp Hk E2) as [S1 [S2 [S3 [S4 [S5 [S6 S7]]]]]].
+    assert (Hmid : AtLeast (c_db c2) (f_due s)).
+    { destruct S5 as [->|[st ->]]; [|rewrite (S6 eq_refl); apply AtLeast_DurInv, HD].
+      destruct (S7 eq_refl) as [ER [EI [EPt [EM ET]]]].
+      apply (AtLeast_grow (c_db (f_c s))); try (apply AtLeast_DurInv, HD).
+      - intros k x H. apply ER. left. exact H.
+      - intros k x H. apply (Prow_ext _ _ k x EPt). exact H.
+      - intros k x H. apply EI. left. exact H.
+      - intros k H. apply EM, H.
+      - intros k H. apply ET, H. }
+    destruct (lift_site r2).
+    + inversion E. subst. split; [|cbn [f_due wr_c]; rewrite f_due_retrier_drop; reflexivity].
+      apply DbsOk_wr; [apply (DbsOk_same _ s); [rewrite f_dbs_retrier_drop; reflexivity|exact Hok]|exact Hmid].
+    + destruct (wt_remove_pending_appointment c2 t l) as [c3 r3]. destruct (lift_site r3); inversion E; subst;
+        (split; [|cbn [f_due wr_c]; rewrite f_due_retrier_drop; reflexivity]);
+        (apply DbsOk_wr; [apply DbsOk_wr; [apply (DbsOk_same _ s); [rewrite f_dbs_retrier_drop; reflexivity|exact Hok]|exact Hmid]|]);
+        (pose proof A as [_ [HD3 _]]; cbn [f_c f_due wr_c] in HD3; rewrite f_due_retrier_drop in HD3; apply AtLeast_DurInv; exact HD3).
+  - rewrite f_c_retrier_drop in E.
+    destruct (wt_add_invalid_appointment (f_c s0) t l (col body C_appointments_encrypted_blob) (col body C_appointments_to_self_delay)) as [c2 r2] eqn:E2.
+    destruct (add_invalid_spec_for_move _ _ _ _ _ _ _ HI Hp Hk E2) as [S1 [S2 [S3 [S4 [S5 [S6 S7]]]]]].
+    assert (Hmid : AtLeast (c_db c2) (f_due s)).
+    { destruct S5 as [->|[st ->]]; [|rewrite (S6 eq_refl); apply AtLeast_DurInv, HD].
+      destruct (S7 eq_refl) as [ER [EI [EPt [EM ET]]]].
+      apply (AtLeast_grow (c_db (f_c s))); try (apply AtLeast_DurInv, HD).
+      - intros k x H. apply ER. left. exact H.
+      - intros k x H. apply (Prow_ext _ _ k x EPt). exact H.
+      - intros k x H. apply EI. left. exact H.
+      - intros k H. apply EM, H.
+      - intros k H. apply ET, H. }
+    destruct (lift_site r2).
+    + inversion E. subst. split; [|cbn [f_due wr_c]; rewrite f_due_retrier_drop; reflexivity].
+      apply DbsOk_wr; [apply (DbsOk_same _ s); [rewrite f_dbs_retrier_drop; reflexivity|exact Hok]|exact Hmid].
+    + destruct (wt_remove_pending_appointment c2 t l) as [c3 r3]. destruct (lift_site r3); inversion E; subst;
+        (split; [|cbn [f_due wr_c]; rewrite f_due_retrier_drop; reflexivity]);
+        (apply DbsOk_wr; [apply DbsOk_wr; [apply (DbsOk_same _ s); [rewrite f_dbs_retrier_drop; reflexivity|exact Hok]|exact Hmid]|]);
+        (pose proof A as [_ [HD3 _]]; cbn [f_c f_due wr_c] in HD3; rewrite f_due_retrier_drop in HD3; apply AtLeast_DurInv; exact HD3).
+Qed.
+
+Lemma run_for_dbs t : forall locs s adds,
+  RunPre s t -> NoDup locs -> (forall l, In l locs -> In l (retrier_pending s t)) ->
+  DbsOk (f_due s) s -> DbsOk (f_due s) (fst (fst (run_for s t locs adds))) /\ f_due (fst (fst (run_for s t locs adds))) = f_due s.
+Proof.
+  induction locs as [|l locs IH]; intros s adds Hpre Hnd Hsub Hok; [split; [exact Hok|reflexivity]|].
+  rewrite run_for_cons. inversion Hnd as [|? ? Hnl Hnd']. subst.
+  destruct (run_for s t [l] adds) as [[s1 adds1] r1] eqn:E1.
+  destruct (run_for_one_dbs t l s adds s1 adds1 r1 Hpre (Hsub l (or_introl eq_refl)) E1 Hok) as [Hok1 Hd1].
+  destruct r1 as [r|]; [cbn [fst]; split; assumption|].
+  assert (Hnd1 : NoDup [l]) by (constructor; [intros []|constructor]).
+  destruct (FInv_run_for t [l] s adds s1 adds1 None Hpre Hnd1) as [A [B _]]; [intros x [<-|[]]; apply Hsub; left; reflexivity|exact E1|].
+  destruct (B I) as [Hp1 Hk1]. destruct Hpre as [HF [Hp [Hk Hrun]]].
+  assert (Hpre1 : RunPre s1 t).
+  { split; [exact A|]. split; [exact Hp1|]. split; [apply Hk1, Hk|].
+    pose proof (run_for_same t [l] s adds) as [_ Hs]. rewrite E1 in Hs. cbn [fst] in Hs. rewrite Hs. exact Hrun. }
+  assert (Hsub1 : forall x, In x locs -> In x (retrier_pending s1 t)).
+  { intros x Hx. clear - E1 Hx Hsub Hnl Hp. cbn [run_for] in E1. unfold poisoned in Hp. unfold poisoned in E1. rewrite Hp in E1.
+    destruct (dbm_load_appointment (c_db (f_c s)) l); [|discriminate]. destruct (next_reply adds) as [rp a1]. destruct rp; try discriminate.
+    + destruct (wt_add_appointment_receipt _ _ _ _ _ _ _) as [c2 r2]. destruct (lift_site r2); [discriminate|].
+      destruct (wt_remove_pending_appointment c2 t l) as [c3 r3]. destruct (lift_site r3); [discriminate|]. inversion E1. subst.
+      change (retrier_pending (wr_c (wr_c (retrier_drop (log_req s (ReqAdd t l)) t l) c2) c3) t) with (retrier_pending (retrier_drop (log_req s (ReqAdd t l)) t l) t).
+      rewrite retrier_pending_drop, N.eqb_refl. apply In_set_remove. split; [apply (Hsub x); right; exact Hx|]. intros ->. contradiction.
+    + destruct (wt_add_invalid_appointment _ _ _ _ _) as [c2 r2]. destruct (lift_site r2); [discriminate|].
+      destruct (wt_remove_pending_appointment c2 t l) as [c3 r3]. destruct (lift_site r3); [discriminate|]. inversion E1. subst.
+      change (retrier_pending (wr_c (wr_c (retrier_drop (log_req s (ReqAdd t l)) t l) c2) c3) t) with (retrier_pending (retrier_drop (log_req s (ReqAdd t l)) t l) t).
+      rewrite retrier_pending_drop, N.eqb_refl. apply In_set_remove. split; [apply (Hsub x); right; exact Hx|]. intros ->. contradiction. }
+  rewrite <- Hd1 in Hok1. destruct (IH s1 adds1 Hpre1 Hnd' Hsub1 Hok1) as [X Y]. rewrite Hd1 in X. split; [exact X|congruence].
+Qed.
+
+Lemma run_while_dbs t hint : forall fuel s adds,
+  RunPre s t -> DbsOk (f_due s) s ->
+  DbsOk (f_due s) (fst (run_while fuel s t hint adds)) /\ f_due (fst (run_while fuel s t hint adds)) = f_due s.
+Proof.
+  induction fuel as [|f IH]; intros s adds Hpre Hok; cbn [run_while]; [split; [exact Hok|reflexivity]|].
+  destruct (retrier_pending s t) as [|x p] eqn:Ep; [split; [exact Hok|reflexivity]|].
+  pose proof Hpre as [HF [Hp [Hk Hrun]]].
+  assert (Hnd : NoDup (x :: p)).
+  { destruct HF as [_ [_ [HV _]]]. destruct (HV Hp) as [_ [_ [_ [V4 _]]]]. unfold retrier_pending in Ep.
+    destruct (aget (f_mgr s) t) as [r|] eqn:Er; [|discriminate]. rewrite <- Ep. eapply V4, Er. }
+  pose proof (NoDup_reorder hint _ Hnd) as Hndr.
+  assert (Hsub : forall l, In l (reorder hint (x :: p)) -> In l (retrier_pending s t)) by (intros l Hl; rewrite Ep; apply In_reorder in Hl; exact Hl).
+  destruct (run_for_dbs t _ s adds Hpre Hndr Hsub Hok) as [D1 D2].
+  destruct (run_for s t (reorder hint (x :: p)) adds) as [[s1 adds1] r1] eqn:E1. cbn [fst] in D1, D2.
+  destruct r1 as [r|]; cbn [fst]; [split; assumption|].
+  destruct (FInv_run_for t _ s adds s1 adds1 None Hpre Hndr Hsub E1) as [A [B _]]. destruct (B I) as [Hp1 Hk1].
+  assert (Hpre1 : RunPre s1 t).
+  { split; [exact A|]. split; [exact Hp1|]. split; [apply Hk1, Hk|].
+    pose proof (run_for_same t (reorder hint (x :: p)) s adds) as [_ Hs]. rewrite E1 in Hs. cbn [fst] in Hs. rewrite Hs. exact Hrun. }
+  rewrite <- D2 in D1. destruct (IH s1 adds1 Hpre1 D1) as [X Y]. rewrite D2 in X. split; [exact X|congruence].
+Qed.
+
+Lemma run_attempt_dbs s t a :
+  FInv s -> rstat s t = Some RRunning -> DbsOk (f_due s) s ->
+  DbsOk (f_due s) (fst (run_attempt s t a)) /\ f_due (fst (run_attempt s t a)) = f_due s.
+Proof.
+  intros HF Hrun Hok. unfold run_attempt. destruct (poisoned s) eqn:Hp; [split; [exact Hok|reflexivity]|].
+  destruct (aget (c_towers (f_c s)) t) as [su|] eqn:Et; [|split; [exact Hok|reflexivity]].
+  assert (Hk : knownc (f_c s) t) by (unfold knownc, amem; rewrite Et; reflexivity).
+  destruct (is_subscription_error (su_status su)); [|apply run_while_dbs; [exact (conj HF (conj Hp (conj Hk Hrun)))|exact Hok]].
+  set (s1 := log_req s (ReqRegister t)).
+  assert (HF1 : FInv s1) by (apply (FInv_core s); auto).
+  destruct (at_reg a) as [slots start expiry sig_ok| | | |]; cbn [fst]; try (split; [exact Hok|reflexivity]).
+  destruct (negb sig_ok); cbn [fst]; [split; [exact Hok|reflexivity]|].
+  destruct (wt_add_update_tower (f_c s1) t (su_addr su) slots start expiry REG_SIG) as [c' r] eqn:Eu.
+  destruct (FInv_renew s1 t _ _ _ _ _ c' r HF1 Hp Hk Eu) as [HF2 Hok2].
+  destruct r; cbn [fst]; try (split; [exact Hok|reflexivity]).
+  destruct (Hok2 eq_refl) as [Hp2 Hkn2].
+  assert (Hok' : DbsOk (f_due (wr_c s1 c')) (wr_c s1 c')).
+  { apply DbsOk_wr; [exact Hok|]. apply AtLeast_DurInv. apply HF2. }
+  destruct (run_while_dbs t (at_order a) (run_fuel (wr_c s1 c') t) (wr_c s1 c') (at_adds a)) as [X Y]; [|exact Hok'|split; [exact X|exact Y]].
+  split; [exact HF2|]. split; [exact Hp2|]. split; [apply Hkn2, Hk|exact Hrun].
+Qed.
+
+Lemma f_dbs_retrier_set_status s t st : f_dbs (retrier_set_status s t st) = f_dbs s.
+Proof. unfold retrier_set_status. destruct (aget (f_mgr s) t); reflexivity. Qed.
+Lemma f_dbs_retrier_clear s t : f_dbs (retrier_clear s t) = f_dbs s.
+Proof. unfold retrier_clear. destruct (aget (f_mgr s) t); reflexivity. Qed.
+Lemma f_due_retrier_set_status s t st : f_due (retrier_set_status s t st) = f_due s.
+Proof. unfold retrier_set_status. destruct (aget (f_mgr s) t); reflexivity. Qed.
+Lemma f_due_retrier_clear s t : f_due (retrier_clear s t) = f_due s.
+Proof. unfold retrier_clear. destruct (aget (f_mgr s) t); reflexivity. Qed.
+
+Lemma task_step_dbs s t r more :
+  FInv s -> rstat s t = Some RRunning -> (match r with RunAbort _ => False | _ => True end -> poisoned s = false) ->
+  DbsOk (f_due s) s -> DbsOk (f_due s) (fst (task_step s t r more)) /\ f_due (fst (task_step s t r more)) = f_due s.
+Proof.
+  intros HF Hrun Hnp Hok. pose proof (FInv_task_step s t r more HF Hrun Hnp) as HF'.
+  unfold task_step in *. destruct r as [|e|site|]; cbn [fst] in *.
+  - split; [|cbn [f_due end_task set_tasks]; rewrite f_due_retrier_set_status; reflexivity].
+    apply (DbsOk_same _ s); [cbn [f_dbs end_task set_tasks]; rewrite f_dbs_retrier_set_status; reflexivity|exact Hok].
+  - destruct (negb (is_permanent e) && more); [split; [exact Hok|reflexivity]|].
+    set (s1 := if is_permanent e then retrier_set_status s t RFailed else s) in *.
+    assert (H1 : f_dbs s1 = f_dbs s /\ f_due s1 = f_due s) by (unfold s1; destruct (is_permanent e); [split; [apply f_dbs_retrier_set_status|apply f_due_retrier_set_status]|split; reflexivity]).
+    destruct H1 as [H1 H2].
+    destruct e as [[|]| |l|]; cbn [fst] in *.
+    + split; [apply (DbsOk_same _ s); [exact H1|exact Hok]|exact H2].
+    + split; [|cbn [f_due end_task set_tasks]; rewrite f_due_retrier_clear, f_due_retrier_set_status; exact H2].
+      apply (DbsOk_same _ s); [cbn [f_dbs end_task set_tasks]; rewrite f_dbs_retrier_clear, f_dbs_retrier_set_status; exact H1|exact Hok].
+    + split; [|cbn [f_due end_task set_tasks]; rewrite f_due_retrier_clear, f_due_retrier_set_status; exact H2].
+      apply (DbsOk_same _ s); [cbn [f_dbs end_task set_tasks]; rewrite f_dbs_retrier_clear, f_dbs_retrier_set_status; exact H1|exact Hok].
+    + destruct (wt_flag_misbehaving_tower (f_c s1) t l START_BLOCK USER_SIG SIG_OTHER (other_id t)) as [c2 r2].
+      destruct (lift_site r2); cbn [fst] in *.
+      * split; [apply (DbsOk_same _ s); [exact H1|exact Hok]|exact H2].
+      * split; [|exact H2]. intros d Hd. cbn [f_dbs end_task set_tasks wr_c] in Hd. apply in_app_or in Hd. destruct Hd as [Hd|[<-|[]]].
+        -- apply Hok. rewrite <- H1. exact Hd.
+        -- pose proof HF' as [_ [HD' _]]. cbn [f_c f_due end_task set_tasks wr_c] in HD'. rewrite H2 in HD'. apply AtLeast_DurInv, HD'.
+    + split; [apply (DbsOk_same _ s); [exact H1|exact Hok]|exact H2].
+  - split; [exact Hok|reflexivity].
+  - split; [exact Hok|reflexivity].
+Qed.
+
+Lemma retrier_run_dbs t : forall atts s,
+  FInv s -> DbsOk (f_due s) s -> DbsOk (f_due s) (fst (f_retrier_run s t atts)) /\ f_due (fst (f_retrier_run s t atts)) = f_due s.
+Proof.
+  induction atts as [|a atts IH]; intros s HF Hok; cbn [f_retrier_run]; [split; [exact Hok|reflexivity]|].
+  destruct (memN t (f_tasks s)) eqn:Em; cbn [negb]; [|split; [exact Hok|reflexivity]].
+  assert (Hrun : rstat s t = Some RRunning) by (apply HF, memN_In, Em).
+  destruct (run_attempt_dbs s t a HF Hrun Hok) as [D1 D2].
+  destruct (run_attempt s t a) as [s1 r] eqn:E1. cbn [fst] in D1, D2.
+  destruct (FInv_run_attempt s t a s1 r HF Hrun E1) as [HF1 [Hnp _]].
+  assert (Hrun1 : rstat s1 t = Some RRunning).
+  { pose proof (run_attempt_same s t a) as [_ Hs]. rewrite E1 in Hs. cbn [fst] in Hs. rewrite Hs. exact Hrun. }
+  rewrite <- D2 in D1. destruct (task_step_dbs s1 t r (at_more a) HF1 Hrun1 Hnp D1) as [T1 T2].
+  pose proof (FInv_task_step s1 t r (at_more a) HF1 Hrun1 Hnp) as HF2.
+  destruct (task_step s1 t r (at_more a)) as [s2 o]. cbn [fst] in T1, T2, HF2.
+  assert (Hfin : DbsOk (f_due s) s2 /\ f_due s2 = f_due s) by (rewrite D2 in T1; split; [exact T1|congruence]).
+  destruct o; try exact Hfin. destruct atts; [exact Hfin|].
+  destruct Hfin as [X Y]. rewrite <- Y in X. destruct (IH s2 HF2 X) as [Z W]. rewrite Y in Z. split; [exact Z|congruence].
+Qed.
+
+(* the other writing operations *)
+Lemma register_dbs s t rp : FInv s -> fresh_ok s (FRegister t rp) = true -> DbsOk (f_due s) s ->
+  DbsOk (f_due s) (fst (f_register s t t rp)).
+Proof.
+  intros HF Hg Hok. pose proof (FInv_register s t rp HF Hg) as HF'. unfold f_register in *.
+  destruct (poisoned s); [exact Hok|]. destruct rp as [slots start expiry sig_ok| | | |]; cbn [fst] in *; try exact Hok.
+  - destruct (negb sig_ok); [exact Hok|]. destruct (wt_add_update_tower _ _ _ _ _ _ _) as [c' r]. destruct r; cbn [fst] in *; try exact Hok.
+    apply DbsOk_wr; [exact Hok|]. apply AtLeast_DurInv. apply HF'.
+  - destruct (amem _ _); exact Hok.
+Qed.
+
+Lemma rev_pend_dbs s l t send s' o : FInv s' -> f_due s' = f_due s -> rev_pend s l t send = (s', o) -> DbsOk (f_due s) s -> DbsOk (f_due s) s'.
+Proof.
+  intros HF' Hd E Hok. unfold rev_pend in E. destruct (wt_add_pending_appointment (f_c s) t l BLOB DELAY) as [c2 r].
+  assert (Hat : AtLeast (c_db (f_c s')) (f_due s)) by (rewrite <- Hd; apply AtLeast_DurInv, HF').
+  assert (Hgo : forall x, f_dbs x = f_dbs s ++ [c_db c2] -> c_db (f_c x) = c_db c2 -> x = s' -> DbsOk (f_due s) s').
+  { intros x Hx Hc <-. intros d Hd'. rewrite Hx in Hd'. apply in_app_or in Hd'. destruct Hd' as [Hd'|[<-|[]]]; [apply Hok, Hd'|]. rewrite <- Hc. exact Hat. }
+  destruct r; inversion E; subst; clear E;
+    try (eapply Hgo; [| |reflexivity]; destruct send; try (unfold send_to_retrier; dmatch); reflexivity).
+Qed.
+
+Lemma rev_tower_dbs s l t st rp s' o : FInv s' -> f_due s' = f_due s -> rev_tower s l t st rp = (s', o) -> DbsOk (f_due s) s -> DbsOk (f_due s) s'.
+Proof.
+  intros HF' Hd E Hok. unfold rev_tower in E.
+  assert (Hat : AtLeast (c_db (f_c s')) (f_due s)) by (rewrite <- Hd; apply AtLeast_DurInv, HF').
+  destruct (poisoned s); [inversion E; subst; exact Hok|]. destruct (wt_has_appointment (f_c s) t l); [inversion E; subst; exact Hok|].
+  assert (Hwr : forall c2 o', (wr_c (log_req s (ReqAdd t l)) c2, o') = (s', o) -> DbsOk (f_due s) s').
+  { intros c2 o' H. inversion H. subst. apply DbsOk_wr; [exact Hok|exact Hat]. }
+  destruct (is_reachable st).
+  - destruct rp.
+    + destruct (wt_add_appointment_receipt _ _ _ _ _ _ _) as [c2 r]. eapply Hwr, E.
+    + destruct (wt_flag_misbehaving_tower _ _ _ _ _ _ _) as [c2 r]. eapply Hwr, E.
+    + eapply (rev_pend_dbs (set_c (log_req s (ReqAdd t l)) _)); [exact HF'|exact Hd|exact E|exact Hok].
+    + eapply (rev_pend_dbs (set_c (log_req s (ReqAdd t l)) _)); [exact HF'|exact Hd|exact E|exact Hok].
+    + eapply (rev_pend_dbs (set_c (log_req s (ReqAdd t l)) _)); [exact HF'|exact Hd|exact E|exact Hok].
+    + eapply (rev_pend_dbs (set_c (log_req s (ReqAdd t l)) _)); [exact HF'|exact Hd|exact E|exact Hok].
+    + eapply (rev_pend_dbs (set_c (log_req s (ReqAdd t l)) _)); [exact HF'|exact Hd|exact E|exact Hok].
+    + destruct (wt_add_invalid_appointment _ _ _ _ _) as [c2 r]. eapply Hwr, E.
+  - destruct (is_misbehaving st); [inversion E; subst; exact Hok|]. eapply rev_pend_dbs; eassumption.
+Qed.
+
+Lemma rev_loop_dbs l replies : forall snap s,
+  FInv s -> (forall t st, In (t, st) snap -> knownc (f_c s) t /\ (st = Misbehaving -> Mrow (c_db (f_c s)) t)) ->
+  DbsOk (f_due s) s -> DbsOk (f_due s) (fst (rev_loop s l snap replies)).
+Proof.
+  induction snap as [|[t st] snap IH]; intros s HF Hsn Hok; cbn [rev_loop]; [exact Hok|].
+  destruct (Hsn t st (or_introl eq_refl)) as [Hk Hm].
+  destruct (rev_tower s l t st (reply_for replies t)) as [s1 o1] eqn:E1.
+  destruct (FInv_rev_tower s l t st _ s1 o1 HF Hk Hm E1) as [HF1 [Hd1 [Hg1 [Hkn1 _]]]].
+  pose proof (rev_tower_dbs s l t st _ s1 o1 HF1 Hd1 E1 Hok) as Hok1.
+  destruct o1 as [site|]; cbn [fst]; [exact Hok1|].
+  rewrite <- Hd1 in Hok1. rewrite <- Hd1. apply IH; [exact HF1| |exact Hok1].
+  intros t0 st0 Hin. destruct (Hsn t0 st0 (or_intror Hin)) as [A B]. split; [apply Hkn1, A|]. intros H. apply Hg1, B, H.
+Qed.
+
+Lemma f_dbs_sweep elapsed : forall keys s st wk, f_dbs (fst (fst (fst (sweep s keys elapsed st wk)))) = f_dbs s.
+Proof.
+  induction keys as [|k keys IH]; intros s st wk; cbn [sweep]; [reflexivity|].
+  destruct (aget (f_mgr s) k) as [r|]; [|apply IH]. destruct (should_start r).
+  - destruct (retrier_start s k r) as [s1 [site|]] eqn:E; cbn [fst];
+      unfold retrier_start in E; destruct (aget (c_towers (f_c s)) k); inversion E; try reflexivity. rewrite IH. reflexivity.
+  - destruct (is_idle (r_status r) && memN k elapsed); rewrite IH; reflexivity.
+Qed.
+
+Lemma f_dbs_manager_tick s elapsed : f_dbs (fst (f_manager_tick s elapsed)) = f_dbs s.
+Proof.
+  unfold f_manager_tick. destruct (f_mgr_dead s); [reflexivity|]. destruct (f_chan s) as [|[t d] rest].
+  - unfold mgr_sweep. match goal with |- context [if ?b then _ else _] => destruct b end; [reflexivity|]. cbv zeta.
+    match goal with |- context [if ?b then _ else _] => destruct b end; [reflexivity|].
+    pose proof (f_dbs_sweep elapsed (map fst (f_mgr (retain_state s))) (retain_state s) [] []) as H.
+    destruct (sweep (retain_state s) (map fst (f_mgr (retain_state s))) elapsed [] []) as [[[s2 a] b] [site|]]; exact H.
+  - unfold mgr_receive, add_pending_appointments, wake. dmatch; reflexivity.
+Qed.
+
+(* C05, crash points: every durable state an operation writes (what a SIGKILL at any moment inside it leaves on disk)
+   still holds AT LEAST ONE record for every (tower, locator) owed before the operation, as long as the tower row and
+   no misbehaviour proof are in that state *)
+Theorem recorded_at_least_one_at_crash ops o :
+  ops_fresh f_init ops = true -> let s := frun f_init ops in fresh_ok s o = true ->
+  forall d, In d (crash_states o s) ->
+  forall t l, In (t, l) (f_due s) -> tower_row d t = true -> exists_misbehaving_proof d t = false ->
+  (1 <= record_count d t l)%nat.
+Proof.
+  intros Hg s Hfo d Hd t l Hin Ht Hm.
+  pose proof (FInv_frun ops f_init FInv_init Hg) as HF. fold s in HF.
+  assert (HF0 : FInv (clear_dbs s)) by (apply (FInv_core s); auto).
+  assert (Hok0 : DbsOk (f_due s) (clear_dbs s)) by (intros x []).
+  assert (Hall : AtLeast d (f_due s)).
+  { unfold crash_states in Hd. destruct Hd as [<-|Hd]; [apply AtLeast_DurInv, HF|].
+    assert (Hdbs : DbsOk (f_due s) (fst (fstep (clear_dbs s) o))); [|apply Hdbs, Hd].
+    destruct o; cbn [fstep].
+    - apply (register_dbs (clear_dbs s)); [exact HF0|exact Hfo|exact Hok0].
+    - unfold f_revocation. change (poisoned (clear_dbs s)) with (poisoned s). destruct (poisoned s) eqn:Hp; [exact Hok0|].
+      set (snap := reorder_towers order (towers_snapshot (f_c (clear_dbs s)))).
+      assert (Hsn : forall t0 st, In (t0, st) snap -> knownc (f_c (clear_dbs s)) t0 /\ (st = Misbehaving -> Mrow (c_db (f_c (clear_dbs s))) t0)).
+      { intros t0 st Hin0. apply reorder_towers_In, towers_snapshot_In in Hin0. destruct HF as [_ [_ [HV _]]]. destruct (HV Hp) as [V1 _].
+        split; [|intros ->; apply V1, Hin0]. unfold knownc, amem. unfold stat in Hin0. cbn [f_c clear_dbs] in *. destruct (aget (c_towers (f_c s)) t0); [reflexivity|discriminate]. }
+      pose proof (rev_loop_dbs l0 replies snap (clear_dbs s) HF0 Hsn Hok0) as H.
+      destruct (rev_loop (clear_dbs s) l0 snap replies) as [s1 o1]. cbn [fst] in H. destruct o1; cbn [fst]; exact H.
+    - unfold DbsOk. rewrite f_dbs_manager_tick. intros x [].
+    - pose proof (retrier_run_dbs t0 atts (clear_dbs s) HF0 Hok0) as [H _]. destruct (f_retrier_run (clear_dbs s) t0 atts). exact H.
+    - unfold f_manual_retry. dmatch; intros x [].
+    - (* abandon: the state between the two DELETE statements has no row of the tower at all *)
+      unfold f_abandon. change (poisoned (clear_dbs s)) with (poisoned s). destruct (poisoned s) eqn:Hp; [exact Hok0|].
+      change (f_c (clear_dbs s)) with (f_c s). destruct (amem (c_towers (f_c s)) t0) eqn:Ek; [|exact Hok0].
+      pose proof HF as [HI [HD _]].
+      destruct (wt_remove_tower (f_c s) t0) as [c' r] eqn:E.
+      destruct (prim_remove_tower _ _ _ _ HI Hp Ek E) as [HI' [_ [-> [_ [_ Hfr]]]]].
+      assert (Hfin : AtLeast (c_db c') (f_due s)).
+      { intros k x Hkx HT HM. destruct (N.eq_dec k t0) as [->|Hn]; [exfalso; apply (Trow_filter _ _ t0 t0 (Hfr T_towers ltac:(discriminate))) in HT; tauto|].
+        destruct HD as [_ [_ E0]]. destruct (E0 k x Hkx) as [_ B].
+        assert (HM0 : ~ Mrow (c_db (f_c s)) k) by (intros X; apply HM, (Mrow_filter _ _ t0 k (Hfr T_misbehaving_proofs ltac:(discriminate))); tauto).
+        destruct (B HM0) as [X|[X|X]]; [left; apply (Rrow_filter _ _ t0 k x (Hfr T_appointment_receipts ltac:(discriminate)))
+          |right; left; apply (Prow_filter _ _ t0 k x (Hfr T_pending_appointments ltac:(discriminate)))
+          |right; right; apply (Irow_filter _ _ t0 k x (Hfr T_invalid_appointments ltac:(discriminate)))]; tauto. }
+      change (c_db (f_c (clear_dbs s))) with (c_db (f_c s)).
+      destruct (db_delete CS (c_db (f_c s)) T_towers [C_towers_tower_id] [t0] true) as [d1|e] eqn:Ed.
+      + change (f_c (note_db (clear_dbs s) d1)) with (f_c s). rewrite E. cbn [fst].
+        intros x Hx. cbn [f_dbs set_due wr_c note_db clear_dbs] in Hx. cbn in Hx. destruct Hx as [<-|[<-|[]]]; [|exact Hfin].
+        apply db_delete_inv in Ed. destruct Ed as [Ed _]. pose proof (abandon_delete_spec (c_db (f_c s)) t0 d1 (proj1 (proj1 (proj1 HI))) Ed) as S1.
+        intros k x Hkx HT HM. destruct (N.eq_dec k t0) as [->|Hn]; [exfalso; apply (Trow_filter _ _ t0 t0 (S1 T_towers)) in HT; tauto|].
+        destruct HD as [_ [_ E0]]. destruct (E0 k x Hkx) as [_ B].
+        assert (HM0 : ~ Mrow (c_db (f_c s)) k) by (intros X; apply HM, (Mrow_filter _ _ t0 k (S1 T_misbehaving_proofs)); tauto).
+        destruct (B HM0) as [X|[X|X]]; [left; apply (Rrow_filter _ _ t0 k x (S1 T_appointment_receipts))
+          |right; left; apply (Prow_filter _ _ t0 k x (S1 T_pending_appointments))
+          |right; right; apply (Irow_filter _ _ t0 k x (S1 T_invalid_appointments))]; tauto.
+      + change (f_c (clear_dbs s)) with (f_c s). rewrite E. cbn [fst].
+        intros x Hx. cbn [f_dbs set_due wr_c clear_dbs] in Hx. cbn in Hx. destruct Hx as [<-|[]]. exact Hfin.
+    - intros x []. }
+  apply tower_row_iff in Ht. assert (Hm' : ~ Mrow d t) by (intros X; apply proof_iff in X; congruence).
+  destruct (Hall t l Hin Ht Hm') as [X|[X|X]]; unfold record_count;
+    [apply has_receipt_row_iff in X|apply has_pending_row_iff in X|apply has_invalid_row_iff in X]; rewrite X; cbn; lia.
+Qed.
